@@ -210,6 +210,10 @@ class Spec:
             self.aave_tokens = (("WETH", 18), ("USDC", 6), ("WBTC", 8), ("DAI", 18))
         elif mix == "aave":
             self.aave_tokens = tuple(rng.sample([("WETH", 18), ("USDC", 6), ("WBTC", 8), ("DAI", 18), ("LINK", 18)], rng.randint(2, 4)))
+            if rng.random() < 0.35:
+                # a reserve that is listed later than the others: its file starts some minutes into the history (the joined
+                # frame has no record of it before; the strategy leaves it alone until it appears)
+                self.aave_late = (rng.choice(self.aave_tokens[1:])[0], rng.choice([2, 5, 9, 17, 33]))
         elif mix == "squeeth":
             self.sq = dict(eth0=rng.uniform(900, 3500), nf0=rng.uniform(0.25, 0.85), premium=rng.uniform(0.97, 1.2), liq_exp=rng.uniform(19, 23))
         elif mix in ("deribit+uni", "uni+deribit", "deribit"):
@@ -274,6 +278,10 @@ class Spec:
                             all_flags=True, price_kind=rng.choice(["walk", "walk", "crash"]))
             for t in w.tokens:
                 raw[f"aave:{t.name}"] = w.data[t.name]
+            late = getattr(self, "aave_late", None)
+            if late is not None:
+                f = raw[f"aave:{late[0]}"]
+                raw[f"aave:{late[0]}"] = f[f.index >= self.start + timedelta(minutes=late[1])]
             if mix == "aave":
                 raw["prices"] = w.prices
             else:
@@ -647,9 +655,26 @@ class AaveDriver(Driver):
         stub.tokens, stub.risk = list(tokens), world.risk
         self.kit = G.AaveKit(m, stub)
         self.tokens = list(tokens)
+        self.all_tokens = list(tokens)
 
     def held(self):
         return bool(self.m.supply_keys) or bool(self.m.borrow_keys)
+
+    def _live(self, snap):
+        """only reserves that have a record in the bar the hook was handed are touched"""
+        if snap is None:
+            return
+        row = snap.market_status[self.mi]
+        try:
+            live = [t for t in self.all_tokens if not pd.isna(row[(t.name, "liquidity_index")])]
+        except Exception:
+            live = list(self.all_tokens)
+        self.tokens = live or list(self.all_tokens)
+        self.kit.w.tokens = list(self.tokens)
+
+    def ops(self, rng, broker, snap, phase, script, density):
+        self._live(snap)
+        return super().ops(rng, broker, snap, phase, script, density)
 
     def rule(self, rng, broker, snap):
         m = self.m
@@ -674,6 +699,7 @@ class AaveDriver(Driver):
 
     def queries(self, rng, broker, snap):
         m = self.m
+        self._live(snap)
         out = super().queries(rng, broker, snap)
         t = rng.choice(self.tokens)
         out += [("health_factor", lambda: m.health_factor), ("total_apy", lambda: m.total_apy), ("ltv", lambda: m.ltv),
